@@ -36,6 +36,13 @@ type Solver struct {
 
 	stack     []*Term // asserted prefix, one push level per literal
 
+	gen      int // incremented every time the process is (re)started: detects a death inside a query
+	Restarts int // solver processes that died inside a query and were replaced
+
+	// KillEvery > 0 kills the solver process before every KillEvery-th exchange
+	// (fault injection for the restart path: GOSYM_FAULT_KILL_EVERY, solver_test.go).
+	KillEvery int
+
 	CoreFail  int
 	Queries   int
 	NSat      int
@@ -73,25 +80,34 @@ func NewSolverOpt(name string, ctx *Ctx, timeoutMs int, cores bool) (*Solver, er
 }
 
 func (s *Solver) start() error {
-	s.cmd = exec.Command(s.args[0], s.args[1:]...)
-	in, err := s.cmd.StdinPipe()
-	if err != nil {
-		return err
-	}
-	out, err := s.cmd.StdoutPipe()
-	if err != nil {
-		return err
-	}
-	s.cmd.Stderr = nil
-	if err := s.cmd.Start(); err != nil {
-		return err
-	}
-	s.in = in
-	s.out = bufio.NewReaderSize(out, 1<<16)
+	s.gen++
 	s.defined = map[int]bool{}
 	s.defs = [][]int{nil}
 	s.litDone = nil
 	s.stack = nil
+	s.cmd = nil
+	// until a process is up, writes go nowhere and reads report end of input
+	s.in = nopWriteCloser{}
+	s.out = bufio.NewReader(strings.NewReader(""))
+	cmd := exec.Command(s.args[0], s.args[1:]...)
+	in, err := cmd.StdinPipe()
+	if err != nil {
+		return err
+	}
+	out, err := cmd.StdoutPipe()
+	if err != nil {
+		in.Close()
+		return err
+	}
+	cmd.Stderr = nil
+	if err := cmd.Start(); err != nil {
+		in.Close()
+		out.Close()
+		return err
+	}
+	s.cmd = cmd
+	s.in = in
+	s.out = bufio.NewReaderSize(out, 1<<16)
 	s.send("(set-option :print-success false)\n(set-option :produce-models true)\n")
 	if s.Cores {
 		s.send("(set-option :produce-unsat-cores true)\n")
@@ -99,6 +115,11 @@ func (s *Solver) start() error {
 	s.send("(set-logic ALL)\n")
 	return nil
 }
+
+type nopWriteCloser struct{}
+
+func (nopWriteCloser) Write(p []byte) (int, error) { return len(p), nil }
+func (nopWriteCloser) Close() error                { return nil }
 
 // Rebind switches the solver to a fresh term context (definitions are reset).
 func (s *Solver) Rebind(ctx *Ctx) {
@@ -128,17 +149,26 @@ func (s *Solver) send(txt string) {
 // roundtrip sends txt followed by an echo marker and returns all output lines before the marker.
 func (s *Solver) roundtrip(txt string) []string {
 	s.seq++
+	if s.KillEvery > 0 && s.seq%s.KillEvery == 0 && s.cmd != nil {
+		s.cmd.Process.Kill()
+		s.cmd.Wait()
+	}
 	marker := fmt.Sprintf("<<done-%d>>", s.seq)
 	s.send(txt + "(echo \"" + marker + "\")\n")
 	var lines []string
 	for {
 		line, err := s.out.ReadString('\n')
 		if err != nil {
-			s.Errors = append(s.Errors, "solver died: "+err.Error())
-			lines = append(lines, "(error \"solver died\")")
-			// try to restart so later queries can proceed
+			// The solver process is gone (crash, kill, failed start). Nothing of its state
+			// survives: start a fresh one with an empty assertion stack. The callers see
+			// the changed generation, rebuild what they need and ask again; only a query
+			// that keeps killing the solver is reported as an error.
+			lines = append(lines, "(error \"solver died: "+err.Error()+"\")")
+			s.Restarts++
 			s.Close()
-			s.start()
+			if err := s.start(); err != nil {
+				s.Errors = append(s.Errors, "restart: "+err.Error())
+			}
 			return lines
 		}
 		line = strings.TrimRight(line, "\r\n")
@@ -360,11 +390,50 @@ func (s *Solver) SetPrefix(lits []*Term) {
 	}
 }
 
+// maxAttempts bounds how often one query is re-issued after the solver process died under it.
+const maxAttempts = 3
+
 // CheckWith decides stack ∧ extra... ; vars of the whole stack are reported in the model.
+// If the solver process dies during the query it is replaced, the prefix is asserted
+// again and the same query is asked again (the answer is then the fresh process's
+// answer to the identical assertions); after maxAttempts deaths the answer is Unknown
+// and an error is recorded.
 func (s *Solver) CheckWith(wantModel bool, extra ...*Term) (Result, Model) {
 	start := time.Now()
 	defer func() { s.SolveTime += time.Since(start) }()
 	s.Queries++
+	prefix := append([]*Term(nil), s.stack...)
+	res, model := Unknown, Model(nil)
+	for attempt := 1; ; attempt++ {
+		g := s.gen
+		res, model = s.checkWithOnce(g, wantModel, extra)
+		if s.gen == g {
+			break
+		}
+		res, model = Unknown, nil
+		if attempt >= maxAttempts {
+			s.Errors = append(s.Errors, fmt.Sprintf("solver process died on %d successive attempts of one query", attempt))
+			// leave the stack as the caller set it
+			s.SetPrefix(prefix)
+			break
+		}
+		s.SetPrefix(prefix)
+	}
+	switch res {
+	case Sat:
+		s.NSat++
+	case Unsat:
+		s.NUnsat++
+	default:
+		s.NUnknown++
+	}
+	return res, model
+}
+
+// checkWithOnce is one attempt of CheckWith on the process of generation g. When the
+// process dies (s.gen != g afterwards) all solver-side state has already been reset by
+// start() and nothing more may be popped or undefined here.
+func (s *Solver) checkWithOnce(g int, wantModel bool, extra []*Term) (Result, Model) {
 	var sb strings.Builder
 	vars := map[string]*Term{}
 	seen := map[int]bool{}
@@ -383,6 +452,9 @@ func (s *Solver) CheckWith(wantModel bool, extra ...*Term) (Result, Model) {
 	}
 	sb.WriteString("(check-sat)\n")
 	lines := s.roundtrip(sb.String())
+	if s.gen != g {
+		return Unknown, nil
+	}
 	res := Unknown
 	bad := false
 	for _, l := range lines {
@@ -402,6 +474,9 @@ func (s *Solver) CheckWith(wantModel bool, extra ...*Term) (Result, Model) {
 	s.LastCore = nil
 	if res == Unsat && s.Cores {
 		out := strings.Join(s.roundtrip("(get-unsat-core)\n"), " ")
+		if s.gen != g {
+			return Unknown, nil
+		}
 		out = strings.Trim(strings.TrimSpace(out), "()")
 		ok := true
 		for _, f := range strings.Fields(out) {
@@ -431,6 +506,9 @@ func (s *Solver) CheckWith(wantModel bool, extra ...*Term) (Result, Model) {
 			}
 			q.WriteString("))\n")
 			out := strings.Join(s.roundtrip(q.String()), " ")
+			if s.gen != g {
+				return Unknown, nil
+			}
 			if err := parseValues(out, vars, model); err != nil {
 				s.Errors = append(s.Errors, "get-value: "+err.Error()+" in "+out)
 				res = Unknown
@@ -438,18 +516,13 @@ func (s *Solver) CheckWith(wantModel bool, extra ...*Term) (Result, Model) {
 		}
 	}
 	s.roundtrip("(pop 1)\n")
+	if s.gen != g {
+		return Unknown, nil // the caller asks again on the fresh process
+	}
 	for _, id := range s.defs[len(s.defs)-1] {
 		delete(s.defined, id)
 	}
 	s.defs = s.defs[:len(s.defs)-1]
-	switch res {
-	case Sat:
-		s.NSat++
-	case Unsat:
-		s.NUnsat++
-	default:
-		s.NUnknown++
-	}
 	return res, model
 }
 
@@ -485,7 +558,8 @@ func (s *Solver) ensureLit(l *Term, sb *strings.Builder) string {
 }
 
 // CheckAssuming decides the conjunction of lits. With an unsat answer (and
-// Cores) LastCore holds the subset of lits reported by the solver.
+// Cores) LastCore holds the subset of lits reported by the solver. A solver process
+// that dies during the query is replaced and the query is asked again (see CheckWith).
 func (s *Solver) CheckAssuming(lits []*Term, wantModel bool) (Result, Model) {
 	start := time.Now()
 	defer func() { s.SolveTime += time.Since(start) }()
@@ -493,6 +567,33 @@ func (s *Solver) CheckAssuming(lits []*Term, wantModel bool) (Result, Model) {
 	if len(s.stack) != 0 {
 		panic("CheckAssuming with a non-empty assertion stack")
 	}
+	res, model := Unknown, Model(nil)
+	for attempt := 1; ; attempt++ {
+		g := s.gen
+		res, model = s.checkAssumingOnce(g, lits, wantModel)
+		if s.gen == g {
+			break
+		}
+		// start() dropped every indicator literal together with the process
+		res, model = Unknown, nil
+		s.LastCore = nil
+		if attempt >= maxAttempts {
+			s.Errors = append(s.Errors, fmt.Sprintf("solver process died on %d successive attempts of one query", attempt))
+			break
+		}
+	}
+	switch res {
+	case Sat:
+		s.NSat++
+	case Unsat:
+		s.NUnsat++
+	default:
+		s.NUnknown++
+	}
+	return res, model
+}
+
+func (s *Solver) checkAssumingOnce(g int, lits []*Term, wantModel bool) (Result, Model) {
 	var sb strings.Builder
 	names := make([]string, 0, len(lits))
 	for _, l := range lits {
@@ -505,6 +606,9 @@ func (s *Solver) CheckAssuming(lits []*Term, wantModel bool) (Result, Model) {
 	sb.WriteString(strings.Join(names, " "))
 	sb.WriteString("))\n")
 	lines := s.roundtrip(sb.String())
+	if s.gen != g {
+		return Unknown, nil
+	}
 	res := Unknown
 	bad := false
 	for _, l := range lines {
@@ -524,6 +628,9 @@ func (s *Solver) CheckAssuming(lits []*Term, wantModel bool) (Result, Model) {
 	s.LastCore = nil
 	if res == Unsat && s.Cores {
 		out := strings.Join(s.roundtrip("(get-unsat-core)\n"), " ")
+		if s.gen != g {
+			return Unknown, nil
+		}
 		out = strings.Trim(strings.TrimSpace(out), "()")
 		byName := map[string]*Term{}
 		for _, l := range lits {
@@ -562,19 +669,14 @@ func (s *Solver) CheckAssuming(lits []*Term, wantModel bool) (Result, Model) {
 			}
 			q.WriteString("))\n")
 			out := strings.Join(s.roundtrip(q.String()), " ")
+			if s.gen != g {
+				return Unknown, nil
+			}
 			if err := parseValues(out, vars, model); err != nil {
 				s.Errors = append(s.Errors, "get-value: "+err.Error()+" in "+out)
 				res = Unknown
 			}
 		}
-	}
-	switch res {
-	case Sat:
-		s.NSat++
-	case Unsat:
-		s.NUnsat++
-	default:
-		s.NUnknown++
 	}
 	return res, model
 }
